@@ -39,7 +39,7 @@ def mk_take(limit, s2, sc2, ws, ops, src):
 
 
 class Rec:
-    __slots__ = ("result", "pos1", "log1", "pos2", "log2", "wlog")
+    __slots__ = ("result", "pos1", "log1", "pos2", "log2", "wlog", "allocs")
 
 
 def parse_half(tr):
@@ -60,6 +60,9 @@ def parse_half(tr):
             if tr[j] != -7:
                 return None
             k = tr[j + 1]; r.wlog = tr[j + 2:j + 2 + k]; j += 2 + k
+            r.allocs = None
+            if j + 1 < n and tr[j] == -4:
+                r.allocs = tr[j + 1]; j += 2
             recs.append(r)
             i = j
         return recs
